@@ -9,8 +9,7 @@ masks, gather indices — `PyhfModel/Tensor.lean`); `D.expected` is the declarat
 namespace Pyhf.Props.C01
 open Pyhf
 
-/-- **Main theorem.**  For every specification accepted by model construction whose histosys variations
-have their channel's bin count, whose bin-wise modifiers have one component per bin, with at most one
+/-- **Main theorem.**  For every specification accepted by model construction whose bin-wise modifiers have one component per bin, with at most one
 (scalar) luminosity parameter, and with per-sample clipping absent or non-positive: for every
 interpolation-code setting and every parameter vector `θ`, the expected rates computed the way the code
 computes them equal, bin by bin and in the channel order the configuration reports,
@@ -19,23 +18,21 @@ computes them equal, bin by bin and in the channel order the configuration repor
 parameter set the modifier is named after. -/
 theorem C01_expected_eq_formula (s : Spec ℝ) (st : Settings ℝ) (m : Model ℝ)
     (hbuild : buildModel realPrim s st = .ok m)
-    (hhisto : histoBlocksOK s (mkConfig s) = true)
     (hbin : binwiseOK m = true) (hlumi : singleLumi m = true) (hcov : singularCovers m = true)
     (hclip : clipSampleNonPos m = true) (θ : List ℝ) :
     expectedActual realPrim m (parOf θ) = D.expected realPrim m (parOf θ) :=
   expectedActual_eq_D m
-    (shape_of_built realPrim s st m (buildModel_built realPrim s st m hbuild) hhisto)
+    (shape_of_built realPrim s st m (buildModel_built realPrim s st m hbuild))
     ⟨hbin, hlumi, hcov, hclip⟩ (parOf θ)
 
 /-- the same for one row of a batched evaluation (`parOfRow`: flat index `t·npars + i`) -/
 theorem C01_expected_eq_formula_batched (s : Spec ℝ) (st : Settings ℝ) (m : Model ℝ)
     (hbuild : buildModel realPrim s st = .ok m)
-    (hhisto : histoBlocksOK s (mkConfig s) = true)
     (hbin : binwiseOK m = true) (hlumi : singleLumi m = true) (hcov : singularCovers m = true)
     (hclip : clipSampleNonPos m = true) (rows : List (List ℝ)) (t : Nat) :
     expectedActual realPrim m (parOfRow m.npars rows t) = D.expected realPrim m (parOfRow m.npars rows t) :=
   expectedActual_eq_D m
-    (shape_of_built realPrim s st m (buildModel_built realPrim s st m hbuild) hhisto)
+    (shape_of_built realPrim s st m (buildModel_built realPrim s st m hbuild))
     ⟨hbin, hlumi, hcov, hclip⟩ _
 
 /-- **Layout.**  The formula's output is the concatenation over `config.channels` (in that order) of one
@@ -55,62 +52,60 @@ theorem C01_layout_length (P : Prim ℝ) (m : Model ℝ) (par : Nat → ℝ) :
 per-bin masked formula `totalP` (no algebraic laws used). -/
 theorem C01_blocks {K : Type} [Add K] [Sub K] [Mul K] [Div K] [Neg K] [OfNat K 0] [OfNat K 1]
     [OfScientific K] [LT K] [LE K] [DecidableLT K] [DecidableLE K] [BEq K]
-    (P : Prim K) (s : Spec K) (st : Settings K) (m : Model K) (hbuild : buildModel P s st = .ok m)
-    (hhisto : histoBlocksOK s (mkConfig s) = true) (par : Nat → K) :
+    (P : Prim K) (s : Spec K) (st : Settings K) (m : Model K) (hbuild : buildModel P s st = .ok m) (par : Nat → K) :
     expectedActual P m par = pw m.nb (totalP P m par) m.chans :=
-  expectedActual_pw P m (shape_of_built P s st m (buildModel_built P s st m hbuild) hhisto) par
+  expectedActual_pw P m (shape_of_built P s st m (buildModel_built P s st m hbuild)) par
 
 /-- **Per-sample output** (`return_by_sample=True`): each sample's row is block-structured too. -/
 theorem C01_by_sample {K : Type} [Add K] [Sub K] [Mul K] [Div K] [Neg K] [OfNat K 0] [OfNat K 1]
     [OfScientific K] [LT K] [LE K] [DecidableLT K] [DecidableLE K] [BEq K]
-    (P : Prim K) (s : Spec K) (st : Settings K) (m : Model K) (hbuild : buildModel P s st = .ok m)
-    (hhisto : histoBlocksOK s (mkConfig s) = true) (par : Nat → K) :
+    (P : Prim K) (s : Spec K) (st : Settings K) (m : Model K) (hbuild : buildModel P s st = .ok m) (par : Nat → K) :
     expectedBySample P m par = m.cfg.samples.map fun sm => pw m.nb (sampleP P m par sm) m.chans := by
   unfold expectedBySample
   apply List.map_congr_left
   intro sm hsm
-  exact sampleVec_pw P m (shape_of_built P s st m (buildModel_built P s st m hbuild) hhisto) par sm hsm
+  exact sampleVec_pw P m (shape_of_built P s st m (buildModel_built P s st m hbuild)) par sm hsm
 
 /-- a sample present in a channel contributes exactly its declarative rate there -/
 theorem C01_present_sample_rate (s : Spec ℝ) (st : Settings ℝ) (m : Model ℝ)
-    (hbuild : buildModel realPrim s st = .ok m) (hhisto : histoBlocksOK s (mkConfig s) = true)
+    (hbuild : buildModel realPrim s st = .ok m)
     (hbin : binwiseOK m = true) (hlumi : singleLumi m = true) (hcov : singularCovers m = true)
     (hclip : clipSampleNonPos m = true) (par : Nat → ℝ)
     (ch : Chan) (hch : ch ∈ m.chans) (sm : String) (hsm : sm ∈ m.cfg.samples) (x : Sample ℝ)
     (hf : findSample m.spec ch.1 sm = some x) (b : Nat) (hb : b < m.cfg.nbOf ch.1) :
     sampleP realPrim m par sm ch b = clip1 m.settings.clipSample (D.sampleRate realPrim m par x ch b) :=
-  sampleP_present m (shape_of_built realPrim s st m (buildModel_built realPrim s st m hbuild) hhisto)
+  sampleP_present m (shape_of_built realPrim s st m (buildModel_built realPrim s st m hbuild))
     ⟨hbin, hlumi, hcov, hclip⟩ par ch hch sm hsm x hf b hb
 
 /-- **Absent samples are untouched**: a sample not present in a channel contributes zero to every bin of it. -/
 theorem C01_absent_sample_zero (s : Spec ℝ) (st : Settings ℝ) (m : Model ℝ)
-    (hbuild : buildModel realPrim s st = .ok m) (hhisto : histoBlocksOK s (mkConfig s) = true)
+    (hbuild : buildModel realPrim s st = .ok m)
     (hbin : binwiseOK m = true) (hlumi : singleLumi m = true) (hcov : singularCovers m = true)
     (hclip : clipSampleNonPos m = true) (par : Nat → ℝ)
     (ch : Chan) (sm : String) (hf : findSample m.spec ch.1 sm = none) (b : Nat) (hb : b < m.cfg.nbOf ch.1) :
     sampleP realPrim m par sm ch b = 0 :=
-  sampleP_absent m (shape_of_built realPrim s st m (buildModel_built realPrim s st m hbuild) hhisto)
+  sampleP_absent m (shape_of_built realPrim s st m (buildModel_built realPrim s st m hbuild))
     ⟨hbin, hlumi, hcov, hclip⟩ par ch sm hf b hb
 
 /-- **Undeclared modifiers are neutral**: on a sample that does not declare `(n, t)` the modifier's factor is
 `1` in every bin of the channel, whatever the parameter values. -/
 theorem C01_undeclared_factor_neutral (s : Spec ℝ) (st : Settings ℝ) (m : Model ℝ)
-    (hbuild : buildModel realPrim s st = .ok m) (hhisto : histoBlocksOK s (mkConfig s) = true) (par : Nat → ℝ)
+    (hbuild : buildModel realPrim s st = .ok m) (par : Nat → ℝ)
     (ch : Chan) (hch : ch ∈ m.chans) (sm : String) (hsm : sm ∈ m.cfg.samples) (x : Sample ℝ)
     (hf : findSample m.spec ch.1 sm = some x) (b : Nat) (hb : b < m.cfg.nbOf ch.1)
     (n : String) (t : ModType) (hnone : findMod x n t = none) :
     factorP realPrim m par n t sm ch b = 1 := by
-  have hs := shape_of_built realPrim s st m (buildModel_built realPrim s st m hbuild) hhisto
+  have hs := shape_of_built realPrim s st m (buildModel_built realPrim s st m hbuild)
   simp [factorP, maskP_present m hs ch hch sm hsm x hf b hb n t, hnone]
 
 /-- … and an undeclared additive modifier shifts nothing. -/
 theorem C01_undeclared_shift_zero (s : Spec ℝ) (st : Settings ℝ) (m : Model ℝ)
-    (hbuild : buildModel realPrim s st = .ok m) (hhisto : histoBlocksOK s (mkConfig s) = true) (par : Nat → ℝ)
+    (hbuild : buildModel realPrim s st = .ok m) (par : Nat → ℝ)
     (ch : Chan) (hch : ch ∈ m.chans) (sm : String) (hsm : sm ∈ m.cfg.samples) (x : Sample ℝ)
     (hf : findSample m.spec ch.1 sm = some x) (b : Nat) (hb : b < m.cfg.nbOf ch.1)
     (n : String) (hnone : findMod x n .histosys = none) :
     deltaP m par n sm ch b = 0 := by
-  have hs := shape_of_built realPrim s st m (buildModel_built realPrim s st m hbuild) hhisto
+  have hs := shape_of_built realPrim s st m (buildModel_built realPrim s st m hbuild)
   simp [deltaP, maskP_present m hs ch hch sm hsm x hf b hb n .histosys, hnone]
 
 /-- **Each factor depends only on the parameter the modifier is named after** (and on the modifier's own
